@@ -84,7 +84,12 @@ def risk_spec(draw, hedge=False):
                 unit[m][t] = [0.0 if x is None else x for x in unit[m][t]]
         sub_t = draw(st.lists(st.sampled_from(tickers), min_size=1, max_size=nt, unique=True))
         sw = {t: round(1.0 / len(sub_t), 4) for t in sub_t}
-        sub = {"name": "sub", "kind": "Strategy", "algos": [["RunDaily", {}], ["WeighSpecified", {"weights": sw}], ["Rebalance", {}]], "children": [{"sec": t, "mult": mult[t]} for t in sub_t]}
+        # the nested book may consist of hedge securities (zero notional by definition, but risky positions all the same); its stack runs
+        # after the root's, so the first risk pass sees it flat
+        sub_kind = draw(st.sampled_from(["Security", "Security", "HedgeSecurity"]))
+        sub = {"name": "sub", "kind": "Strategy", "algos": [["RunDaily", {}], ["WeighSpecified", {"weights": sw}], ["Rebalance", {}]], "children": [dict({"sec": t, "mult": mult[t]}, **({"kind": sub_kind} if sub_kind != "Security" else {})) for t in sub_t]}
+        if sub_kind != "Security":
+            spec["hedge_sub"] = True
         w2 = dict(w)
         w2 = {k: abs(v) * 0.5 for k, v in w2.items()}
         w2["sub"] = 0.4
@@ -181,7 +186,7 @@ def case_risk(ctx, spec):
             holder["hedged"] += 1
 
     interp.Probe.registry["c20risk"] = cb
-    base = {k: v for k, v in spec.items() if k not in ("measures", "mult", "history", "histories", "hedge", "nested")}
+    base = {k: v for k, v in spec.items() if k not in ("measures", "mult", "history", "histories", "hedge", "nested", "hedge_sub")}
     try:
         b = interp.mk_backtest(bt, base)
         holder["root"] = b.strategy
@@ -198,7 +203,7 @@ def case_risk(ctx, spec):
         interp.Probe.registry.pop("c20risk", None)
     if holder["n"] == 0:
         raise Discard("probe never reached")
-    labs = ["hedge" if spec.get("hedge") else "risk"] + (["nested"] if spec.get("nested") else []) + ["history=%d" % spec["history"]] + (["mixed_history_depths"] if len(set(spec.get("histories", {}).values())) > 1 else [])
+    labs = ["hedge" if spec.get("hedge") else "risk"] + (["nested"] if spec.get("nested") else []) + ["history=%d" % spec["history"]] + (["mixed_history_depths"] if len(set(spec.get("histories", {}).values())) > 1 else []) + (["nested_hedge_securities"] if spec.get("hedge_sub") else [])
     nt = holder["hedged"] > 0 if spec.get("hedge") else holder["nz"] >= 2
     return {"nontrivial": nt, "labels": labs}
 
